@@ -306,13 +306,10 @@ func c08FrameLatticePart() c08PartSpec {
 	for i, g := range gens {
 		g := g
 		chunks[i] = func(c *c08Ctx) {
+			// every value is parsed back under all 4 levels x 8 extension flag combinations
+			// (both tiers): the admission model demands acceptance wherever the frame may be
+			// sent, whatever the flags of the other extensions are
 			valueCfgs := c08AllCfgs()
-			if !c.thorough {
-				valueCfgs = nil
-				for _, lvl := range c08Levels {
-					valueCfgs = append(valueCfgs, c08FullCfg(lvl), c08FrameCfg{lvl: lvl, exp: protocol.AckDelayExponent})
-				}
-			}
 			full := make([]c08FrameCfg, len(c08Levels))
 			for i, lvl := range c08Levels {
 				full[i] = c08FullCfg(lvl)
